@@ -451,7 +451,9 @@ func (c *canonCtx) skeleton(e cypher.Expression) *bnode {
 			return &bnode{kind: bAtom, atom: "(kind " + ref + " " + t.Kinds[0].String() + ")", kindTest: true, onRel: onRel}
 		}
 		n := &bnode{kind: bOr, kindTest: true, onRel: onRel}
-		if t.IsExclusive {
+		if t.IsExclusive && !onRel {
+			// a relationship has exactly one kind: the PostgreSQL translator defines every relationship kind test as
+			// any-of ("Edge kind checking is a strict equality, so the IsExclusive condition does not apply")
 			n.kind, n.allOf = bAnd, true
 		}
 		for _, k := range t.Kinds {
@@ -537,6 +539,8 @@ const deviationMasks = 64
 func deviationSet(mask int) deviations {
 	return deviations{mask&1 != 0, mask&2 != 0, mask&4 != 0, mask&8 != 0, mask&16 != 0, mask&32 != 0}
 }
+
+var prec = map[bkind]int{bOr: 1, bXor: 2, bAnd: 3}
 
 type token struct {
 	op   string // "atom" "(" ")" "and" "or" "xor" "not" "true"
@@ -634,8 +638,10 @@ func linearise(n *bnode, d deviations, out *[]token) {
 			if i > 0 {
 				*out = append(*out, token{op: opName[n.kind]})
 			}
-			dropped := false
-			if k.connective() && len(k.kids) > 1 {
+			// a nested connective needs parentheses only when it binds looser than its parent (OR < XOR < AND); the same
+			// or a tighter connective reads the same inline, which is also how the emitter writes it
+			if k.connective() && len(k.kids) > 1 && prec[k.kind] < prec[n.kind] {
+				dropped := false
 				switch {
 				case n.kind == bAnd && k.kind == bXor:
 					dropped = d.xorUnderAnd
